@@ -80,6 +80,7 @@ func (mux *Mux) ServeHTTP(w http.ResponseWriter, r *http.Request) {
 	store.W.Status = 0
 	store.R = nil
 	store.I = nil
+	store.P.K = nil
 	store.P.V = store.P.V[:0]
 	store.id = store.id[:9]
 	mux.storePool.Put(store)
